@@ -96,6 +96,14 @@ theorem pow_general (s t : L4) (hs : sOk s) (ht : sOk t) (h0 : sVal t ≠ 0) (h1
   refine ⟨ok, ?_⟩
   rw [v, hv, hr, ZMod.natCast_mod, Nat.cast_pow, ZMod.natCast_zmod_val]
 
+/-- the methods of `scalar.go` are regenerated from their Go bodies on every run (nil guard as an `Option` argument, then the
+calls into `internal/scalar`); the model the theorems above are about *is* the regenerated method, nil arguments included -/
+theorem api_methods_tied (s : L4) (t : Option L4) (i : Nat) :
+    GenScalarAPI.add s t = add s t ∧ GenScalarAPI.subtract s t = subtract s t ∧ GenScalarAPI.multiply s t = multiply s t ∧
+    GenScalarAPI.square s = square s ∧ GenScalarAPI.set s t = set s t ∧ GenScalarAPI.setUInt64 i = setUInt64 i ∧
+    GenScalarAPI.zero = zero ∧ GenScalarAPI.one = one ∧ GenScalarAPI.minusOne = minusOne :=
+  ⟨ScalarApiTies.add_tie s t, ScalarApiTies.subtract_tie s t, ScalarApiTies.multiply_tie s t, rfl, ScalarApiTies.set_tie s t, rfl, rfl, rfl, rfl⟩
+
 example : sOk minusOne ∧ sOk one := ⟨minusOne_correct.1, sOne_ok⟩
 
 end C06
